@@ -16,5 +16,5 @@ HARNESSES = [
 ]
 LEVEL_TEXT = ('Bounded model checking of the real end-of-line normalisation and position tracking of the reader against a reference transcribed from XML 1.0/1.1 section 2.11, for ALL character sequences within the bound '
               '(CRLF, CR NEL, NEL, LSEP, lone CR; external vs. internal entities; NEL recognition on/off).')
-LEVEL_NOTE = ('Only the normalisation kernels are within reach (end-of-line handling of the reader; attribute-value normalisation of the IG and SG scanners). NOT claimed: attribute-value normalisation of the DG and WF scanners, tokenized types with REFERENCED tab/LF/CR (collapsed by this implementation, kept by XML 1.0: not judged), entity expansion, DTD defaulting, CDATA/comment/PI delivery, '
+LEVEL_NOTE = ('Only the normalisation kernels are within reach (end-of-line handling of the reader; attribute-value normalisation of the IG and SG scanners). NOT claimed: attribute-value normalisation of the DG and WF scanners, entity expansion, DTD defaulting, CDATA/comment/PI delivery, '
               'agreement of the SAX/SAX2/DOM/pull adapters (whole-document behaviour).')
